@@ -132,3 +132,105 @@ Theorem C17_refusal_libtensor_partial :
     (cs_con st = nil /\ cat (map iname (cs_tgt st)) = EmptyString).
 Proof. exact refusal_exact_libtensor. Qed.
 Print Assumptions C17_refusal_libtensor_partial.
+
+(* libtensor backend, one step: whenever a text is produced, its free labels
+   are the names of the step's target indices and its value (contract /
+   dot_product / products of labelled tensors, nested) is
+   sum_{contracted} prod operands *)
+Theorem C17_codegen_step_semantics_libtensor :
+  forall (S : Scalar) (T : tmodel S) (cfg : tnames) (tenv : string -> arr S)
+         (B : string -> list index -> env -> K S) (D : list index)
+         (cache : list (string * cexpr)) (acc : list (string * stepval S)) (st : cstep) (e : cexpr),
+    inj_on D -> cache_ok_lt S T tenv cache acc -> step_ok_lt S T cfg tenv B D acc st ->
+    format_contraction cfg Libtensor cache st = Ok e ->
+    labs_of S T tenv e (cs_tgt st) /\
+    (forall p : lenv, snd (run_lt S tenv e) p = step_val S T B acc st (renv p)) /\
+    depends_on S (cs_tgt st) (step_val S T B acc st).
+Proof. exact codegen_step_semantics_lt. Qed.
+Print Assumptions C17_codegen_step_semantics_libtensor.
+
+(* libtensor backend, whole line of a term *)
+Theorem C17_codegen_semantics_libtensor :
+  forall (S : Scalar) (T : tmodel S) (cfg : tnames) (tenv : string -> arr S)
+         (B : string -> list index -> env -> K S) (hf : bool) (D : list index)
+         (t : cterm) (l : line) (steps : list cstep),
+    inj_on D -> ct_hasidx t = true -> ct_scheme t = Ok steps ->
+    scheme_ok_lt S T cfg tenv B D nil steps ->
+    gen_term cfg hf Libtensor t = Ok l ->
+    exists (inner : list cstep) (o : cstep) (e : cexpr) (cm : string),
+      steps = inner ++ o :: nil /\ l_neg l = ct_neg t /\ l_body l = Some (e, cm) /\
+      format_prefactor hf Libtensor (ct_nums t) (ct_syms t) = Ok (l_pref l) /\
+      labs_of S T tenv e (cs_tgt o) /\
+      (forall (tg : list string) (p : lenv),
+         run_line S T tenv Libtensor tg l p =
+         kmul S (kmul S (ksgn (ct_neg t)) (kprod (map (pfac_val S T) (l_pref l))))
+              (step_val S T B (scheme_vals S T B nil inner) o (renv p))).
+Proof. exact codegen_term_semantics_lt. Qed.
+Print Assumptions C17_codegen_semantics_libtensor.
+
+(* whole program (either backend): if every line evaluates to the value V of
+   its term, the program evaluates to the sum over its blocks of
+   X + sum_k sign_k X o pi_k with X the sum of the term values of the block *)
+Theorem C17_codegen_prog_semantics :
+  forall (S : Scalar) (T : tmodel S) (tenv : string -> arr S) (be : backend)
+         (tgt : list string) (D : list index)
+         (bis : list (list (list (index * index) * Z) * list (env -> K S)))
+         (pr : list (permsym * list line)),
+    inj_on D -> Forall2 (block_ok S T tenv be tgt D) bis pr ->
+    forall p : lenv,
+      run_prog S T tenv be tgt pr p = ksum bis (fun bi => block_ref S bi (renv p)).
+Proof. exact codegen_prog_semantics. Qed.
+Print Assumptions C17_codegen_prog_semantics.
+
+(* unoptimised scheme: the single simultaneous contraction of all objects
+   of a term, times the coefficient, is the value of the term in the sense of
+   Core/Expr.v (so for optimize_contraction_scheme=False the chain
+   text -> scheme value -> term value is closed inside this development) *)
+Theorem C17_unoptimized_step_is_term :
+  forall (S : Scalar) (T : tmodel S) (B : string -> list index -> env -> K S)
+         (tm : term) (tg : list index) (nm : string) (ops : list (string * list index))
+         (con tgt : list index),
+    Forall2 (fun (op : string * list index) (f : atom * bool) =>
+               snd f = false /\ is_contraction (fst op) = false /\
+               (forall r : env, B (fst op) (snd op) r = atom_val S T r (fst f)))
+            ops (tfacs tm) ->
+    NoDup con -> (forall x, In x con <-> In x (contracted tg tm)) ->
+    forall r : env,
+      kmul S (ofQ S (tcoef tm)) (step_val S T B nil (CStep nm ops con tgt) r) = eval_term S T tg r tm.
+Proof. exact unoptimized_step_is_term. Qed.
+Print Assumptions C17_unoptimized_step_is_term.
+
+(* the decidable checks evaluated by the harness on every observed scheme
+   (step_wf for all steps, link_ok) together with the binding of the base
+   tensors imply the hypothesis scheme_ok of C17_codegen_semantics *)
+Theorem C17_checks_imply_hypotheses :
+  forall (S : Scalar) (T : tmodel S) (cfg : tnames) (tenv : string -> arr S)
+         (B : string -> list index -> env -> K S) (D : list index) (steps : list cstep)
+         (acc : list (string * stepval S)),
+    forallb step_wf steps = true -> link_ok (prev_of S acc) steps = true ->
+    base_bound_np S T cfg tenv B steps -> incl (scheme_idx steps) D ->
+    scheme_ok S T cfg tenv B D acc steps.
+Proof. exact scheme_ok_of_checks. Qed.
+Print Assumptions C17_checks_imply_hypotheses.
+
+(* The hypotheses are satisfiable: a nested two-step scheme
+   (A_ij B_jk -> ik, then (ik) C_k -> i) over an arbitrary scalar ring and
+   tensor model, with the arrays read off the tensor model. *)
+Section Example.
+Variable S : Scalar. Variable T : tmodel S.
+Let i := Idx Occ NoSpin 105 0 0. Let j := Idx Occ NoSpin 106 0 0. Let k := Idx Occ NoSpin 107 0 0.
+Let R := rng T Occ NoSpin.
+Let tenv (s : string) : arr S :=
+  if String.eqb s "C_o"%string then Arr S [R] (fun xs => tv T KNonSym s 0%Z xs [])
+  else Arr S [R; R] (fun xs => tv T KNonSym s 0%Z xs []).
+Let B (nm : string) (idx : list index) (r : env) : K S := tv T KNonSym nm 0%Z (map r idx) [].
+Let steps := [CStep "contraction_0"%string [("A_oo"%string, [i; j]); ("B_oo"%string, [j; k])] [j] [i; k];
+              CStep "contraction_1"%string [("contraction_0"%string, [i; k]); ("C_o"%string, [k])] [k] [i]].
+Example C17_hypotheses_satisfiable :
+  scheme_ok S T default_tnames tenv B (scheme_idx steps) nil steps /\
+  names_inj (scheme_idx steps) = true /\ single_letter (scheme_idx steps) = true.
+Proof. split; [|split; vm_compute; reflexivity].
+  apply scheme_ok_of_checks; try (vm_compute; reflexivity).
+  - intros op Hop. vm_compute in Hop. destruct Hop as [<-|[<-|[<-|[]]]]; (split; [reflexivity|intros r; reflexivity]).
+  - intros z Hz; exact Hz. Qed.
+End Example.
